@@ -40,10 +40,17 @@ def origin_table(p: Project) -> Dict[str, str]:
 
 
 def geometry_roots(e: ast.expr) -> List[str]:
+    """geometry attributes read from an object that is in scope under a name (a parameter, self, a loop variable); `<call>(...).shape` - the shape of a freshly
+    computed plain array - is not the parent's geometry.  Callers pass the expression with single-assignment temporaries already read through, so that the answer
+    does not depend on whether an intermediate value was given a name."""
     roots = []
     for n in ast.walk(e):
         if isinstance(n, ast.Attribute) and n.attr in GEO_ATTRS and not (isinstance(n.value, ast.Name) and n.value.id in ("np", "numpy")):
-            roots.append(norm_text(n))
+            b = n.value
+            while isinstance(b, (ast.Attribute, ast.Subscript)):
+                b = b.value
+            if isinstance(b, ast.Name):
+                roots.append(norm_text(n))
     return roots
 
 
@@ -60,6 +67,8 @@ def point_kind(e: ast.expr, f: FuncInfo, _depth: int = 0) -> Tuple[bool, str]:
     if isinstance(e, ast.Attribute):
         if e.attr in POINT_ATTRS:
             return True, norm_text(e)
+        if expr_is_point(f, e):
+            return True, f"{norm_text(e)}: a member computed as a coordinate of the parent's frame"
         return False, f"attribute .{e.attr} is not a point (expected .origin / .mask_centre)"
     if isinstance(e, ast.Tuple):
         for k, el in enumerate(e.elts):
@@ -109,6 +118,39 @@ def _midpoint(e: ast.expr):
     return None
 
 
+# utils whose result is a coordinate of the parent's frame (it moves by d when the origin moves by d): established by C12.covariance, which analyses each of them
+COORD_UTILS = ("autoarray.geometry.geometry_util:scaled_coordinates_2d_from", "autoarray.geometry.geometry_util:grid_scaled_2d_slim_from",
+               "autoarray.structures.grids.grid_2d_util:grid_2d_slim_via_mask_from", "autoarray.geometry.geometry_util:central_scaled_coordinate_2d_from")
+PROJECT = None   # set by scan()
+
+
+def expr_is_point(f: FuncInfo, e: ast.expr, depth: int = 0) -> bool:
+    """kind inference for a value that is not literally `.origin`: a member of the same object whose every return is a coordinate (a call of a coordinate util, of a
+    method that returns one, or another such member).  `self.zoom_offset_scaled` is a displacement as long as it is scales x pixels; it becomes a POINT the moment it
+    is computed by `geometry.scaled_coordinates_2d_from`, and adding the origin to it then counts the origin twice."""
+    p = PROJECT
+    if p is None or depth > 3:
+        return False
+    from . import wire
+    if isinstance(e, ast.Attribute):
+        if e.attr in POINT_ATTRS:
+            return True
+        if isinstance(e.value, ast.Name) and e.value.id == "self" and f.cls is not None:
+            m = f.cls.lookup(e.attr)
+            if m is not None and any(norm_text(d) in ("property", "cached_property", "functools.cached_property") or norm_text(d).endswith("cached_property") for d in m.node.decorator_list):
+                rets = wire.returns_of(m)
+                return bool(rets) and all(expr_is_point(m, wire.inline_locals(m, r.value), depth + 1) for r in rets)
+        return False
+    if isinstance(e, ast.Call):
+        for t in p.resolve_call(e, f):
+            if t.key in COORD_UTILS:
+                return True
+            rets = wire.returns_of(t)
+            if rets and all(expr_is_point(t, wire.inline_locals(t, r.value), depth + 1) for r in rets):
+                return True
+    return False
+
+
 def component_kind(e: ast.expr, k: int, f: FuncInfo) -> Tuple[bool, str]:
     """element k of an origin tuple: exactly one +POINT[k] term, every other term a component-k quantity or a literal;
     or the midpoint of two coordinates of axis k"""
@@ -131,7 +173,7 @@ def component_kind(e: ast.expr, k: int, f: FuncInfo) -> Tuple[bool, str]:
             if t.slice.value != k:
                 return False, f"`{norm_text(t)}` is component {t.slice.value} used in position {k} (axes mixed)"
             base = t.value
-            if (isinstance(base, ast.Attribute) and base.attr in POINT_ATTRS) or (isinstance(base, ast.Name) and base.id in ("origin", "origins")):
+            if (isinstance(base, ast.Attribute) and base.attr in POINT_ATTRS) or (isinstance(base, ast.Name) and base.id in ("origin", "origins")) or expr_is_point(f, base):
                 if sign != 1:
                     return False, f"point component `{norm_text(t)}` enters with a minus sign"
                 pts += 1
@@ -149,6 +191,8 @@ def literal_pixel_units(bind: Dict[str, ast.expr]) -> bool:
 
 def scan(p: Project, skip_modules=("autoarray.fixtures",)) -> List[dict]:
     """every call of a coordinate-origin callable, with the facts the rules need"""
+    global PROJECT
+    PROJECT = p
     table = origin_table(p)
     sites = []
     for f in p.all_functions():
@@ -166,7 +210,8 @@ def scan(p: Project, skip_modules=("autoarray.fixtures",)) -> List[dict]:
             roots = []
             for k, v in b.items():
                 if k != oname:
-                    roots.extend(geometry_roots(v))
+                    from . import wire
+                    roots.extend(geometry_roots(wire.inline_locals(f, v)))
             own_origin = [o for o in ("origin", "origins") if o in f.all_params and f.key in table]
             sites.append({"func": f, "call": c, "callee": t, "oname": oname, "bind": b, "complete": complete, "roots": sorted(set(roots)), "own_origin": own_origin,
                           "bound": b.get(oname)})
